@@ -93,8 +93,11 @@ def build_table(case, rows=None):
         lb = [r['lb'] for r in rows]
         t['local_bkg'] = lb * u.Jy if case['kind'] == 'gauss2d_unit' else lb
     if case['per_row_shape']:
-        t['model_shape'] = [tuple(r['shape']) for r in rows] if rows else \
-            np.zeros((0, 2), int)
+        if case.get('scalar_shape_col') and rows:
+            t['model_shape'] = [int(r['shape'][0]) for r in rows]
+        else:
+            t['model_shape'] = [tuple(r['shape']) for r in rows] if rows else \
+                np.zeros((0, 2), int)
     t.meta['origin'] = 'vf'
     return model, t, xn, yn, (pmap or None), pnames
 
@@ -157,6 +160,12 @@ def oracle(case, rows, pnames, xn, yn):
 
 def check_render(case, ctx):
     import astropy.units as u
+    if case.get('scalar_shape_col') and case['per_row_shape']:
+        # the per-row 'model_shape' column in its scalar form (one size per
+        # row, square windows)
+        case = dict(case, rows=[dict(r, shape=[r['shape'][0]] * 2)
+                                for r in case['rows']])
+        ctx.event('scalar_model_shape_column')
     model, t, xn, yn, pmap, pnames = build_table(case)
     rows = case['rows']
     model0 = copy.deepcopy(model)
@@ -258,6 +267,7 @@ def render_cases(draw):
     return {'shape': [ny, nx], 'kind': kind, 'rows': rows,
             'model_shape': [draw(st.integers(1, 12)), draw(st.integers(1, 12))],
             'per_row_shape': draw(st.booleans()) and nrows > 0,
+            'scalar_shape_col': draw(st.booleans()),
             'local_bkg': draw(st.booleans()),
             'xcol': draw(st.sampled_from([None, None, 'xcen'])),
             'ycol': draw(st.sampled_from([None, None, 'ycen'])),
